@@ -192,7 +192,8 @@ class C19(flow.Spec):
     prop = 'C19'
     props_files = ['theories/Props/C19.v', 'theories/Props/C19_examples.v',
                    'theories/Props/C19_vga_trans.v', 'theories/Props/C19_vga_trans_examples.v',
-                   'theories/Props/C19_vesa_trans.v', 'theories/Props/C19_vesa_trans_examples.v']
+                   'theories/Props/C19_vesa_trans.v', 'theories/Props/C19_vesa_trans_examples.v',
+                   'theories/Props/C19_vesa_trans2.v', 'theories/Props/C19_vesa_trans2_examples.v']
     model_targets = ['theories/Console/Run.vo']
     pkg = 'device/video/console'
     harness = [os.path.join(H, 'zz_verif_c19_test.go'), os.path.join(H, 'zz_verif_c19_vesa_test.go'), os.path.join(H, 'zz_verif_consts_test.go')]
